@@ -143,12 +143,21 @@ def install_probe():
     solver._verif_probed = True
 
 
+_LAMBUF = {}
+
+
 def solve(S, lam, W, N, rho, cb, budget=BUDGET):
     from fast_ticc import admm
     PROBE.xupdates = PROBE.checks = 0
     PROBE.last = None
-    res = admm.admm_optimize_theta(S.copy(), lam.copy() if isinstance(lam, np.ndarray) else lam, W, N,
-                                   rho=rho, rho_update=boyd if cb else None, max_iterations=budget)
+    if isinstance(lam, np.ndarray):
+        # a caller that keeps ONE penalty matrix and refills it between solves: the result may depend
+        # on the matrix's contents only, never on its identity
+        buf = _LAMBUF.setdefault(lam.shape, np.empty(lam.shape))
+        buf[:] = lam
+        lam = buf
+    res = admm.admm_optimize_theta(S.copy(), lam, W, N, rho=rho, rho_update=boyd if cb else None,
+                                   max_iterations=budget, absolute_tolerance=1e-6, relative_tolerance=1e-6)
     if PROBE.xupdates == 0 and PROBE.checks == 0:
         raise HarnessError("solver probes were not reached (update/convergence functions renamed?)")
     iters = PROBE.xupdates if PROBE.xupdates else PROBE.checks + 1
